@@ -265,6 +265,7 @@ def poly_grad_float(terms, xs, n):
 DEFAULT_OPTS = dict(
     n_comps=(2, 5), max_rank=2, max_extent=3, units=True, chains=True, max_deg=2,
     scaling=False, safe_indices=False, cycles=False, auto_ivc=True, shuffle_order=False,
+    implicit=False, array_scaling=False,
 )
 
 
@@ -277,6 +278,8 @@ def gen_md(rng, **kw):
     """Generate a random acyclic model description."""
     o = dict(DEFAULT_OPTS)
     o.update(kw)
+    if o['cycles'] == 'converging':
+        o['max_deg'] = 1
     # Groups are contiguous runs in creation order, so that the tree's execution order equals the
     # (topological) creation order of the components.
     groups = ['']
@@ -370,13 +373,40 @@ def gen_md(rng, **kw):
                 dr = rng.choice([F(1, 4), F(1, 2), F(2), F(4), F(-1), F(-2), F(8)])
                 od['ref0'] = rat(r0)
                 od['ref'] = rat(r0 + dr)
-                od['res_ref'] = rat(rng.choice([F(1, 2), F(2), F(4), F(1, 8), F(16)]))
+                od['res_ref'] = rat(rng.choice([F(1, 2), F(2), F(4), F(1, 8), F(16), F(1)]))
+                if o['array_scaling'] and rng.random() < 0.4:
+                    od['ref0'] = [rat(F(rng.randint(-8, 8), 2)) for _ in range(size)]
+                    od['ref'] = [rat(unrat(a) + rng.choice([F(1, 2), F(2), F(-1), F(4)]))
+                                 for a in od['ref0']]
+                    od['res_ref'] = [rat(rng.choice([F(1, 2), F(2), F(4)])) for _ in range(size)]
             c['outs'].append(od)
             c['poly'][od['name']] = [rand_poly(rng, in_elems, o['max_deg']) for _ in range(size)]
             outs.append((ci, od))
+        if o['implicit'] and rng.random() < 0.3:
+            # affine implicit component  R(u, x) = A u - B x - c  with a diagonally dominant A
+            m = sum(int(np.prod(od['shape'])) for od in c['outs'])
+            ne = len(in_elems)
+            A = [[F(0)] * m for _ in range(m)]
+            for r in range(m):
+                for q in range(m):
+                    if r != q and rng.random() < 0.5:
+                        A[r][q] = F(rng.choice([-1, 1]))
+                A[r][r] = F(rng.choice([-1, 1]) * rng.choice([4, 8]))
+            Bm = [[F(rng.choice([-2, -1, 1, 2, 3])) if rng.random() < 0.5 else F(0)
+                   for _ in range(ne)] for _ in range(m)]
+            cv = [F(rng.randint(-8, 8), 2) for _ in range(m)]
+            c['kind'] = 'implicit'
+            c['A'] = [[rat(v) for v in row] for row in A]
+            c['B'] = [[rat(v) for v in row] for row in Bm]
+            c['c'] = [rat(v) for v in cv]
+            c['poly'] = {}
+            c['partials'] = rng.choice(['dense', 'dense', 'cs'])
+            c['has_solve_linear'] = rng.random() < 0.7
         comps.append(c)
     md = {'groups': groups, 'comps': comps, 'conns': conns, 'cyclic': False}
-    if o['cycles']:
+    if o['cycles'] == 'converging':
+        _add_converging_feedback(rng, md)
+    elif o['cycles']:
         _add_feedback(rng, md)
     _assign_styles(rng, md)
     if o['shuffle_order']:
@@ -410,6 +440,69 @@ def _add_feedback(rng, md):
         A['poly'][oname][0].append({'c': rat(F(1, 8)), 'mon': [[e0, 1]]})
         md['conns'].append({'tgt': [a, iname], 'src': [b, od['name']], 'chain': [], 'style': None})
         md['cyclic'] = True
+
+
+def _add_converging_feedback(rng, md):
+    """One feedback connection that keeps the acyclic model's exact state as the converged state:
+    the new input `fb` (from a later component's output y) enters one output of an earlier
+    component through the term  k * (fb[e] - y*[e])  which vanishes at the acyclic state y*.
+    k is chosen so that the loop gain is at most 1/4 (block Gauss-Seidel, Jacobi and Newton
+    converge). Components on the loop are affine so the converged state is unique."""
+    comps = md['comps']
+    expl = [ci for ci, c in enumerate(comps) if c['kind'] == 'explicit']
+    if len(expl) < 2:
+        return
+    # pick a downstream pair (a feeds b through the data flow), so that the loop is real
+    deps = {ci: set() for ci in range(len(comps))}
+    for cn in md['conns']:
+        if cn['src'] is not None:
+            deps[cn['tgt'][0]].add(cn['src'][0])
+    def upstream(ci, seen=None):
+        seen = seen if seen is not None else set()
+        for d in deps[ci]:
+            if d not in seen:
+                seen.add(d)
+                upstream(d, seen)
+        return seen
+    pairs = [(a, b) for b in expl for a in upstream(b) if a in expl and a != b]
+    if not pairs:
+        return
+    a, b = rng.choice(pairs)
+    A, B = comps[a], comps[b]
+    od = rng.choice(B['outs'])
+    size = int(np.prod(od['shape']))
+    outs, ins = exact_state(md)
+    ystar = outs[comp_path(B) + '.' + od['name']]
+    iname = 'fb0'
+    A['ins'].append({'name': iname, 'shape': list(od['shape']), 'units': od['units']})
+    j = len(A['ins']) - 1
+    e0 = len(A['in_elems'])
+    A['in_elems'].extend((j, e) for e in range(size))
+    oname = A['outs'][0]['name']
+    e = rng.randrange(size)
+    cn = {'tgt': [a, iname], 'src': [b, od['name']], 'chain': [], 'style': None,
+          'feedback': True, 'fb_val': [rat(v) for v in ystar]}
+    md['conns'].append(cn)
+    # loop gain: derivative of y[e] with respect to A's first output element, acyclic part
+    g = _loop_gain(md, a, oname, b, od['name'], e)
+    k = F(1, 4) / max(F(1), abs(g))
+    # round k down to a power of two
+    p2 = F(1)
+    while p2 > k:
+        p2 /= 2
+    k = p2 * rng.choice([1, -1])
+    A['poly'][oname][0].append({'c': rat(k), 'mon': [[e0 + e, 1]]})
+    A['poly'][oname][0].append({'c': rat(-k * ystar[e]), 'mon': []})
+    md['cyclic'] = True
+    md['converging'] = True
+
+
+def _loop_gain(md, a, oname, b, yname, e):
+    """d y_b[e] / d (first element of output `oname` of comp a) in the acyclic model, exactly."""
+    key = comp_path(md['comps'][a]) + '.' + oname
+    outs, ins = exact_state(md, bump={key: 0})
+    y = outs[comp_path(md['comps'][b]) + '.' + yname][e]
+    return y.du if isinstance(y, DualF) else F(0)
 
 
 def comp_path(c):
@@ -508,8 +601,58 @@ def fix_md(md):
 # ------------------------------------------------------------------------------------------------
 # exact evaluation
 
-def exact_state(md, overrides=None):
-    """Exact values: returns (outs, ins): dicts keyed by 'path.var' -> list of Fractions (flat)."""
+def frac_solve(A, B):
+    """Exact solve A X = B (lists of lists of Fraction/DualF-free Fractions). Returns X or None."""
+    n = len(A)
+    m = len(B[0]) if B else 0
+    M = [list(A[i]) + list(B[i]) for i in range(n)]
+    for col in range(n):
+        piv = None
+        for r in range(col, n):
+            if M[r][col] != 0:
+                piv = r
+                break
+        if piv is None:
+            return None
+        M[col], M[piv] = M[piv], M[col]
+        pv = M[col][col]
+        M[col] = [x / pv for x in M[col]]
+        for r in range(n):
+            if r != col and M[r][col] != 0:
+                f = M[r][col]
+                M[r] = [x - f * y for x, y in zip(M[r], M[col])]
+    return [row[n:] for row in M]
+
+
+def implicit_solution(c, flat):
+    """u = A^-1 (B x + c) for an affine implicit component (exact; x may hold DualF)."""
+    A = [[unrat(v) for v in row] for row in c['A']]
+    Bm = [[unrat(v) for v in row] for row in c['B']]
+    cv = [unrat(v) for v in c['c']]
+    m = len(A)
+    Ainv = frac_solve(A, [[F(1) if i == j else F(0) for j in range(m)] for i in range(m)])
+    rhs = []
+    for k in range(m):
+        t = cv[k]
+        for j, x in enumerate(flat):
+            if Bm[k][j] != 0:
+                t = t + Bm[k][j] * x
+        rhs.append(t)
+    out = []
+    for k in range(m):
+        t = F(0)
+        for j in range(m):
+            if Ainv[k][j] != 0:
+                t = t + Ainv[k][j] * rhs[j]
+        out.append(t)
+    return out
+
+
+def exact_state(md, overrides=None, bump=None):
+    """Exact values: returns (outs, ins): dicts keyed by 'path.var' -> list of Fractions (flat).
+    `bump={key: elem}` adds the dual unit to one explicit output element (sensitivity probe).
+    For models with a (value preserving) feedback connection the state of the underlying acyclic
+    model is returned: by construction it is also the converged state of the cyclic model."""
     outs, ins = {}, {}
     overrides = overrides or {}
     conn_by_tgt = {(cn['tgt'][0], cn['tgt'][1]): cn for cn in md['conns']}
@@ -526,6 +669,10 @@ def exact_state(md, overrides=None):
             key = p + '.' + idef['name']
             if cn['src'] is None:
                 vals = [_val(v) for v in overrides.get(key, cn['val'])]
+            elif cn.get('feedback'):
+                # value-preserving feedback: at the converged state the input holds the recorded
+                # value of its (later) source
+                vals = [unrat(v) for v in cn['fb_val']]
             else:
                 sci, soname = cn['src']
                 sc = md['comps'][sci]
@@ -537,8 +684,21 @@ def exact_state(md, overrides=None):
             ins[key] = vals
             xs.append(vals)
         flat = [xs[j][e] for (j, e) in c['in_elems']]
-        for od in c['outs']:
-            outs[p + '.' + od['name']] = [poly_eval(t, flat) for t in c['poly'][od['name']]]
+        if c['kind'] == 'implicit':
+            sol = implicit_solution(c, flat)
+            k = 0
+            for od in c['outs']:
+                size = int(np.prod(od['shape']))
+                outs[p + '.' + od['name']] = sol[k:k + size]
+                k += size
+        else:
+            for od in c['outs']:
+                outs[p + '.' + od['name']] = [poly_eval(t, flat) for t in c['poly'][od['name']]]
+        if bump:
+            for od in c['outs']:
+                key = p + '.' + od['name']
+                if key in bump:
+                    outs[key][bump[key]] = outs[key][bump[key]] + DualF(0, 1)
     return outs, ins
 
 
@@ -563,7 +723,9 @@ def make_polycomp_class():
                 kw = {}
                 for k in ('ref', 'ref0', 'res_ref', 'lower', 'upper'):
                     if od.get(k) is not None:
-                        kw[k] = float(unrat(od[k]))
+                        v = od[k]
+                        kw[k] = np.array([float(unrat(x)) for x in v]).reshape(od['shape']) \
+                            if isinstance(v, list) else float(unrat(v))
                 self.add_output(od['name'], val=np.ones(od['shape']), units=od['units'], **kw)
             self._sizes = [int(np.prod(i['shape'])) for i in c['ins']]
             self._offs = np.concatenate([[0], np.cumsum(self._sizes)]).astype(int)
@@ -660,7 +822,106 @@ def make_polycomp_class():
                         d_inputs[i] += (J.T @ np.asarray(d_outputs[o]).ravel()).reshape(
                             d_inputs[i].shape)
 
-    return PolyComp, PolyCompMF
+    class AffImp(om.ImplicitComponent):
+        """Affine implicit component  R(u, x) = A u - B x - c  of one `md` component."""
+
+        def initialize(self):
+            self.options.declare('cdef', types=dict, recordable=False)
+            self.options.declare('log', default=None, recordable=False)
+
+        def setup(self):
+            c = self.options['cdef']
+            for i in c['ins']:
+                self.add_input(i['name'], val=np.ones(i['shape']), units=i['units'])
+            for od in c['outs']:
+                kw = {}
+                for k in ('ref', 'ref0', 'res_ref', 'lower', 'upper'):
+                    if od.get(k) is not None:
+                        v = od[k]
+                        kw[k] = np.array([float(unrat(x)) for x in v]).reshape(od['shape']) \
+                            if isinstance(v, list) else float(unrat(v))
+                self.add_output(od['name'], val=np.ones(od['shape']), units=od['units'], **kw)
+            self._A = np.array([[float(unrat(v)) for v in row] for row in c['A']])
+            self._B = np.array([[float(unrat(v)) for v in row] for row in c['B']]).reshape(
+                len(c['A']), -1)
+            self._c = np.array([float(unrat(v)) for v in c['c']])
+            self._isizes = [int(np.prod(i['shape'])) for i in c['ins']]
+            self._ioffs = np.concatenate([[0], np.cumsum(self._isizes)]).astype(int)
+            self._osizes = [int(np.prod(o['shape'])) for o in c['outs']]
+            self._ooffs = np.concatenate([[0], np.cumsum(self._osizes)]).astype(int)
+            self._elem_pos = [int(self._ioffs[j] + e) for (j, e) in c['in_elems']]
+
+        def setup_partials(self):
+            c = self.options['cdef']
+            meth = c.get('partials', 'dense')
+            kw = {'method': 'cs'} if meth == 'cs' else {}
+            for o in c['outs']:
+                for o2 in c['outs']:
+                    self.declare_partials(o['name'], o2['name'], **kw)
+                for i in c['ins']:
+                    self.declare_partials(o['name'], i['name'], **kw)
+
+        def _x(self, inputs):
+            c = self.options['cdef']
+            parts = [np.asarray(inputs[i['name']]).ravel() for i in c['ins']]
+            full = np.concatenate(parts) if parts else np.zeros(0)
+            return full[self._elem_pos] if len(self._elem_pos) else full[:0]
+
+        def _u(self, outputs):
+            c = self.options['cdef']
+            return np.concatenate([np.asarray(outputs[o['name']]).ravel() for o in c['outs']])
+
+        def _split(self, vec, target):
+            c = self.options['cdef']
+            for k, o in enumerate(c['outs']):
+                target[o['name']] = vec[self._ooffs[k]:self._ooffs[k + 1]].reshape(o['shape'])
+
+        def apply_nonlinear(self, inputs, outputs, residuals):
+            log = self.options['log']
+            c = self.options['cdef']
+            if log is not None:
+                log.append((self.pathname, {i['name']: np.array(inputs[i['name']]).ravel().copy()
+                                            for i in c['ins']}))
+            x = self._x(inputs)
+            r = self._A @ self._u(outputs) - (self._B @ x if x.size else 0.0) - self._c
+            self._split(r, residuals)
+
+        def solve_nonlinear(self, inputs, outputs):
+            log = self.options['log']
+            c = self.options['cdef']
+            if log is not None:
+                log.append((self.pathname, {i['name']: np.array(inputs[i['name']]).ravel().copy()
+                                            for i in c['ins']}))
+            x = self._x(inputs)
+            u = np.linalg.solve(self._A.astype(x.dtype if x.size else float),
+                                (self._B @ x if x.size else 0.0) + self._c)
+            self._split(u, outputs)
+
+        def linearize(self, inputs, outputs, partials):
+            c = self.options['cdef']
+            if c.get('partials') == 'cs':
+                return
+            for k, o in enumerate(c['outs']):
+                rows = slice(self._ooffs[k], self._ooffs[k + 1])
+                for k2, o2 in enumerate(c['outs']):
+                    partials[o['name'], o2['name']] = self._A[rows, self._ooffs[k2]:self._ooffs[k2 + 1]]
+                for j, i in enumerate(c['ins']):
+                    J = np.zeros((self._osizes[k], self._isizes[j]))
+                    for e, (jj, ee) in enumerate(c['in_elems']):
+                        if jj == j:
+                            J[:, ee] += -self._B[rows, e]
+                    partials[o['name'], i['name']] = J
+
+        def solve_linear(self, d_outputs, d_residuals, mode):
+            c = self.options['cdef']
+            if mode == 'fwd':
+                r = np.concatenate([np.asarray(d_residuals[o['name']]).ravel() for o in c['outs']])
+                self._split(np.linalg.solve(self._A, r), d_outputs)
+            else:
+                r = np.concatenate([np.asarray(d_outputs[o['name']]).ravel() for o in c['outs']])
+                self._split(np.linalg.solve(self._A.T, r), d_residuals)
+
+    return PolyComp, PolyCompMF, AffImp
 
 
 _CLASSES = None
@@ -672,7 +933,7 @@ def build_problem(md, log=None, cfg=None):
     import openmdao.api as om
     if _CLASSES is None:
         _CLASSES = make_polycomp_class()
-    PolyComp, PolyCompMF = _CLASSES
+    PolyComp, PolyCompMF, AffImp = _CLASSES
     cfg = cfg or {}
     p = om.Problem()
     model = p.model
@@ -704,8 +965,11 @@ def build_problem(md, log=None, cfg=None):
             if cfg.get('jac') and cd.get('partials') == 'matfree':
                 # an assembled jacobian rejects matrix-free components by design
                 cd['partials'] = 'dense'
-            cls = PolyCompMF if cd.get('partials') == 'matfree' else PolyComp
-            comp = cls(cdef=cd, log=log)
+            if c['kind'] == 'implicit':
+                comp = AffImp(cdef=cd, log=log)
+            else:
+                cls = PolyCompMF if cd.get('partials') == 'matfree' else PolyComp
+                comp = cls(cdef=cd, log=log)
         gobj[c['group']].add_subsystem(c['name'], comp)
         cobj[ci] = comp
     _apply_solver_cfg(om, model, gobj, cfg)
@@ -782,6 +1046,16 @@ def _apply_solver_cfg(om, model, gobj, cfg):
         if kind == 'runonce':
             return om.LinearRunOnce()
         return None
+    nl = cfg.get('nonlinear')
+    if nl == 'nlbgs':
+        model.nonlinear_solver = om.NonlinearBlockGS(maxiter=200, atol=1e-13, rtol=1e-13, iprint=-1)
+    elif nl == 'nlbjac':
+        model.nonlinear_solver = om.NonlinearBlockJac(maxiter=400, atol=1e-13, rtol=1e-13, iprint=-1)
+    elif nl == 'newton':
+        model.nonlinear_solver = om.NewtonSolver(solve_subsystems=bool(cfg.get('solve_subsystems')),
+                                                 maxiter=50, atol=1e-13, rtol=1e-13, iprint=-1)
+    elif nl == 'broyden':
+        model.nonlinear_solver = om.BroydenSolver(maxiter=100, atol=1e-13, rtol=1e-13, iprint=-1)
     if cfg.get('jac'):
         model.options['assembled_jac_type'] = cfg['jac']
     ls = mk(cfg.get('linear'))
@@ -854,6 +1128,30 @@ def terms_to_expr(terms, elem_var):
     return e
 
 
+def implicit_solution_terms(c):
+    """The explicit solution u = A^-1 B x + A^-1 c of an affine implicit component as polynomial
+    terms over its input elements."""
+    ne = len(c['in_elems'])
+    m = len(c['A'])
+    cols = []
+    for j in range(ne):
+        x = [F(1) if q == j else F(0) for q in range(ne)]
+        cols.append(x)
+    zero = implicit_solution(c, [F(0)] * ne)
+    res = []
+    sols = [implicit_solution(c, x) for x in cols]
+    for k in range(m):
+        terms = []
+        if zero[k] != 0:
+            terms.append({'c': rat(zero[k]), 'mon': []})
+        for j in range(ne):
+            cf = sols[j][k] - zero[k]
+            if cf != 0:
+                terms.append({'c': rat(cf), 'mon': [[j, 1]]})
+        res.append(terms)
+    return res
+
+
 def flat_layout(md):
     """Global output layout: offsets of every output block (component order), then one pseudo
     IVC block per unconnected (auto-IVC) input."""
@@ -891,7 +1189,7 @@ def flat_spec(md, positions=None):
     conn_of = {(cn['tgt'][0], cn['tgt'][1]): k for k, cn in enumerate(md['conns'])}
     comps = []
     for ci, c in enumerate(md['comps']):
-        if c['kind'] != 'explicit':
+        if c['kind'] == 'ivc':
             continue
         ins = []
         in_off = []
@@ -914,9 +1212,13 @@ def flat_spec(md, positions=None):
                     ins.append([base + q, rat(fac), rat(offs)])
         elem_var = [in_off[j] + e for (j, e) in c['in_elems']]
         polys = []
-        for od in c['outs']:
-            for terms in c['poly'][od['name']]:
+        if c['kind'] == 'implicit':
+            for terms in implicit_solution_terms(c):
                 polys.append(terms_to_expr(terms, elem_var))
+        else:
+            for od in c['outs']:
+                for terms in c['poly'][od['name']]:
+                    polys.append(terms_to_expr(terms, elem_var))
         start = off[(ci, c['outs'][0]['name'])]
         comps.append({'ci': ci, 'path': comp_path(c), 'start': start, 'len': len(polys),
                       'ins': ins, 'polys': polys,
@@ -957,7 +1259,7 @@ def scaling_to_scaler(sc):
 def gen_voi(rng, md, units=True, scaling=True):
     """Random design variables (IVC outputs) and responses (explicit outputs)."""
     ivc_outs = [(ci, od) for ci, c in enumerate(md['comps']) if c['kind'] == 'ivc' for od in c['outs']]
-    exp_outs = [(ci, od) for ci, c in enumerate(md['comps']) if c['kind'] == 'explicit'
+    exp_outs = [(ci, od) for ci, c in enumerate(md['comps']) if c['kind'] != 'ivc'
                 for od in c['outs']]
     rng.shuffle(ivc_outs)
     rng.shuffle(exp_outs)
@@ -1097,3 +1399,75 @@ def totals_spec(md, voi):
         wrt.extend(param_of[off[(v['ci'], v['oname'])] + q] for q in pos)
     return {'op': 'totals', 'n': n, 'L': L, 'ins': ins_all, 'resid': resid,
             'env': [rat(x) for x in u] + [rat(x) for x in xvals], 'of': of, 'wrt': wrt}
+
+
+def exact_system_matrix(md):
+    """A = dR/du at the exact state (exact Fractions), n x n over the global output layout."""
+    return _linearised(md)[0]
+
+
+def _linearised(md):
+    """(A, off, n): exact partial-derivative matrix of the flat residual system."""
+    off, aoff, n = flat_layout(md)
+    spec = flat_spec(md)
+    outs, ins = exact_state(md)
+    u = [None] * n
+    for ci, c in enumerate(md['comps']):
+        for od in c['outs']:
+            for e, x in enumerate(outs[comp_path(c) + '.' + od['name']]):
+                u[off[(ci, od['name'])] + e] = x
+    for k, cn in enumerate(md['conns']):
+        if cn['src'] is None:
+            for e, x in enumerate(cn['val']):
+                u[aoff[k] + e] = unrat(x)
+
+    def ev(e, xs):
+        t = e[0]
+        if t == 'c':
+            return unrat(e[1])
+        if t == 'v':
+            return xs[e[1]]
+        if t == '+':
+            return ev(e[1], xs) + ev(e[2], xs)
+        if t == '*':
+            return ev(e[1], xs) * ev(e[2], xs)
+        return -ev(e[1], xs)
+
+    def resid(uu):
+        r = [uu[k] - u[k] for k in range(n)]       # default: pinned (independent variables)
+        for c in spec['comps']:
+            xs = [(uu[src] + unrat(o)) * unrat(f) for src, f, o in c['ins']]
+            for t, poly in enumerate(c['polys']):
+                r[c['start'] + t] = uu[c['start'] + t] - ev(poly, xs)
+        return r
+    r0 = resid(u)
+    if any((x.re if isinstance(x, DualF) else x) != 0 for x in r0):
+        raise RuntimeError('exact state is not a zero of the residuals')
+    A = [[F(0)] * n for _ in range(n)]
+    for j in range(n):
+        uu = list(u)
+        uu[j] = DualF(u[j], 1)
+        rj = resid(uu)
+        for k in range(n):
+            A[k][j] = rj[k].du if isinstance(rj[k], DualF) else F(0)
+    return A, off, n
+
+
+def exact_totals_linsolve(md, voi):
+    """Exact Jacobian d(responses)/d(desvars) by linearising the flat residual system at the exact
+    state and solving exactly in Fractions (works for cyclic models; independent of Lean)."""
+    A, off, n = _linearised(md)
+    cols_pos = []
+    for v in voi['desvars']:
+        pos, od = voi_positions(md, v)
+        cols_pos.extend(off[(v['ci'], v['oname'])] + q for q in pos)
+    rows_pos = []
+    for r in voi['responses']:
+        pos, od = voi_positions(md, r)
+        rows_pos.extend(off[(r['ci'], r['oname'])] + q for q in pos)
+    # residual of a design variable element k is u_k - x  =>  B = -e_k
+    Bm = [[F(1) if k == q else F(0) for q in cols_pos] for k in range(n)]
+    X = frac_solve(A, Bm)
+    if X is None:
+        raise RuntimeError('singular')
+    return [[X[i][l] for l in range(len(cols_pos))] for i in rows_pos]
